@@ -34,4 +34,19 @@ mod verif_kani {
         let r = is_multisubset(to_count_map(&l), to_count_map(&s));
         assert!(r == expect);
     }
+
+    #[kani::proof]
+    #[kani::unwind(20)]
+    #[kani::solver(kissat)]
+    #[kani::stub(std::hash::RandomState::new, stub_random_state)]
+    fn c15_multisubset_tiny() {
+        let nl: usize = kani::any();
+        let ns: usize = kani::any();
+        kani::assume(nl <= 1 && ns <= 1);
+        let (l, cl) = any_vec(nl);
+        let (s, cs) = any_vec(ns);
+        let expect = cs[0] <= cl[0] && cs[1] <= cl[1] && cs[2] <= cl[2];
+        let r = is_multisubset(to_count_map(&l), to_count_map(&s));
+        assert!(r == expect);
+    }
 }
